@@ -16,7 +16,7 @@ variable {M : Type}
     its direction was explicitly partitioned. -/
 def Statement (cfg : Cfg) : Prop :=
   ∀ (M : Type) (a b : Nat), a < b → ∀ ops : List (LinkOp M), (∀ op ∈ ops, op.inC03 = true) →
-    ∀ s ∈ (Link.run cfg (Link.init a b) ops).2, s.bad = false
+    ∀ s ∈ (Link.run cfg (Link.init a b cfg.fixMatured) ops).2, s.bad = false
 
 /-- One step of the C03 alphabet preserves the invariant and hands over only good messages. -/
 theorem step_fixed {l : Link M} (h : Inv l) (op : LinkOp M) (hop : op.inC03 = true) :
@@ -55,7 +55,14 @@ theorem run_fixed {l : Link M} (h : Inv l) (ops : List (LinkOp M)) (hops : ∀ o
     delay, nothing sent across an explicitly partitioned direction is delivered. -/
 theorem fixed : Statement Cfg.fixed := by
   intro M a b hab ops hops
-  exact (run_fixed (inv_init a b hab) ops hops).2
+  exact (run_fixed (inv_init a b hab _) ops hops).2
+
+/-- … for a link of either variant of the ready-queue repair (the `Link` functions read only `fixRand`
+    from `cfg`; the link carries its own `fixMatured`): in particular for the tree before the repair of
+    F-C03-2, `Cfg.fixedRand`, whose links have `fixMatured = false`. -/
+theorem fixed_any_flag (M : Type) (a b : Nat) (hab : a < b) (fm : Bool) (ops : List (LinkOp M))
+    (hops : ∀ op ∈ ops, op.inC03 = true) : ∀ s ∈ (Link.run Cfg.fixed (Link.init a b fm) ops).2, s.bad = false :=
+  (run_fixed (inv_init a b hab fm) ops hops).2
 
 /-- The faithful model (the code as it stands) violates the statement: a one-way partition a→b, a
     send b→a whose fail coin comes up (both directions become `rand`, overwriting the explicit
@@ -113,28 +120,49 @@ theorem partial_nocoins (M : Type) (a b : Nat) (hab : a < b) (ops : List (LinkOp
     (hops : ∀ op ∈ ops, op.inC03 = true) (hc : ∀ op ∈ ops, usesCoins op = false) :
     ∀ s ∈ (Link.run Cfg.faithful (Link.init a b) ops).2, s.bad = false := by
   rw [run_nocoins _ _ hc]
-  exact fixed M a b hab ops hops
+  exact (run_fixed (inv_init a b hab) ops hops).2
 
 /-- Messages in flight in the partitioned direction when a one-way partition is imposed are
-    discarded: none remains on the link (both models). -/
-theorem inflight_dropped (l : Link M) (hlt : l.a < l.b) (ab : Bool) :
+    discarded: none remains on the link (all model variants). -/
+theorem inflight_dropped (l : Link M) (ab : Bool) :
     ∀ s ∈ (l.partitionDir ab).1.sent, s.src ≠ (if ab then l.a else l.b) := by
-  have hnlt : ¬ l.b < l.a := Nat.not_lt.mpr (Nat.le_of_lt hlt)
-  cases ab <;> simp [partitionDir, partitionOneway, hlt, hnlt]
+  cases ab
+  · simp only [partitionDir, Bool.false_eq_true, if_false]
+    rw [(partitionOneway_fields l l.b l.a).2.2.1]
+    intro s hs; simpa using (List.mem_filter.mp hs).2
+  · simp only [partitionDir, if_true]
+    rw [(partitionOneway_fields l l.a l.b).2.2.1]
+    intro s hs; simpa using (List.mem_filter.mp hs).2
 
 /-- A two-way partition discards everything in flight. -/
-theorem inflight_dropped_twoway (l : Link M) : l.explicitPartition.1.sent = [] := rfl
+theorem inflight_dropped_twoway (l : Link M) : l.explicitPartition.1.sent = [] :=
+  (explicitPartition_fields l).2.2.1
 
-/-- A one-way partition leaves the reverse direction alone: its state, and every in-flight message
-    of the reverse direction (in order). -/
+/-- A one-way partition leaves the reverse direction alone: its state, every in-flight message of the
+    reverse direction (in order), and the ready queue of the reverse direction's destination; without the
+    repair of F-C03-2 (`fixMatured = false`) both ready queues. -/
 theorem reverse_unaffected (l : Link M) (hlt : l.a < l.b) (ab : Bool) :
     (l.partitionDir ab).1.stateFor (if ab then l.b else l.a) (if ab then l.a else l.b)
         = l.stateFor (if ab then l.b else l.a) (if ab then l.a else l.b)
     ∧ (l.partitionDir ab).1.sent.filter (fun s => s.src != (if ab then l.a else l.b))
         = l.sent.filter (fun s => s.src != (if ab then l.a else l.b))
-    ∧ (l.partitionDir ab).1.toA = l.toA ∧ (l.partitionDir ab).1.toB = l.toB := by
+    ∧ (if ab then (l.partitionDir ab).1.toA = l.toA else (l.partitionDir ab).1.toB = l.toB)
+    ∧ (l.fixMatured = false → (l.partitionDir ab).1.toA = l.toA ∧ (l.partitionDir ab).1.toB = l.toB) := by
   have hnlt : ¬ l.b < l.a := Nat.not_lt.mpr (Nat.le_of_lt hlt)
-  cases ab <;> simp [partitionDir, partitionOneway, stateFor, hlt, hnlt, List.filter_filter]
+  have hne : (l.b == l.a) = false := by simpa using (Nat.ne_of_gt hlt)
+  cases ab
+  · simp only [partitionDir, Bool.false_eq_true, if_false]
+    obtain ⟨_, _, es, e1, _, _, _, _, _, _⟩ := partitionOneway_fields l l.b l.a
+    simp only [hnlt, if_false] at e1
+    refine ⟨by simp [stateFor, hlt, e1], by rw [es, List.filter_filter]; simp, ?_, ?_⟩
+    · unfold partitionOneway clearReady; simp only; split <;> simp
+    · intro hf; unfold partitionOneway; simp [hf, hnlt]
+  · simp only [partitionDir, if_true]
+    obtain ⟨_, _, es, _, e2, _, _, _, _, _⟩ := partitionOneway_fields l l.a l.b
+    simp only [hlt, if_true] at e2
+    refine ⟨by simp [stateFor, hnlt, e2], by rw [es, List.filter_filter]; simp, ?_, ?_⟩
+    · unfold partitionOneway clearReady; simp only; split <;> simp [hne]
+    · intro hf; unfold partitionOneway; simp [hf, hlt]
 
 /-- After an explicit repair the direction is healthy again, and a message sent while healthy (no
     fail coin) is scheduled `delay` after the link's clock — i.e. traffic flows again. -/
